@@ -356,6 +356,26 @@ def treeSize (g : DDag) : Nat → Nat → Nat
     | [] => 1
     | a :: rest => 1 + treeSize g f a + (match rest with | [] => 0 | b :: _ => treeSize g f b)
 
+/-- what a parse visits: `(entries, stops)` — `entries` = leaves reached with remaining key length 0 in an ordinary cell
+(each stores one key into `ret_dict`: distinct paths spell distinct keys, they differ at the fork bit where they part;
+only the root leaf of a `key_length = 0` dictionary has the empty key and is not stored), `stops` = edges that end in a
+non-ordinary cell (pruned branch / library cell: `deserialize_hashmap_node` returns without an entry). -/
+def dictOut (g : DDag) : Nat → Nat → Int → Nat × Nat
+  | 0, _, _ => (0, 0)
+  | f+1, v, keyLen =>
+    match g[v]? with
+    | none => (0, 0)
+    | some nd =>
+      match readLabel nd.bits keyLen with
+      | (none, _) => (0, 0)
+      | (some l, _) =>
+        let m : Int := keyLen - l
+        if !nd.ordinary then (0, 1) else
+        if m == 0 then (1, 0) else
+        match nd.kids with
+        | a :: b :: _ => ((dictOut g f a (m - 1)).1 + (dictOut g f b (m - 1)).1, (dictOut g f a (m - 1)).2 + (dictOut g f b (m - 1)).2)
+        | _ => (0, 0)
+
 /-! ## 5. TL `deserialize` -/
 namespace Tl
 
